@@ -21,6 +21,21 @@ theorem C02_failed_request_emits_nothing (db : Db) (fuel : Nat) (fwd : Bool) (r 
   | raised s => simp
   | fuel => simp
 
+/-- … and when `Eups.setup` itself answers "not found" (unknown product or version; unsetup of a product that is not set
+up) the in-process environment, aliases included, is exactly the one it was given — every database, flag, fuel.  (When a
+*required dependency* fails the exception leaves a half-built `os.environ` behind in the process — observation in
+DESIGN §7 — but nothing is emitted: previous theorem.) -/
+theorem C02_notfound_leaves_environment (db : Db) (fuel : Nat) (fwd : Bool) (r : Request) (e : Setup.Env) (s' : St)
+    (h : (if fwd then runSetup db fuel r e else runUnsetup db fuel r e) = .notFound s') :
+    s'.env = e ∧ s'.aliases = [] ∧ s'.unaliased = [] := by
+  cases fwd with
+  | true =>
+    have := setup_notFound_unchanged _ _ _ _ _ _ _ _ _ _ _ h
+    subst this; exact ⟨rfl, rfl, rfl⟩
+  | false =>
+    have := setup_notFound_unchanged _ _ _ _ _ _ _ _ _ _ _ h
+    subst this; exact ⟨rfl, rfl, rfl⟩
+
 /-- the VRO a dependency line is resolved with (`Action.processArgs`): its own `-t` tags in front of the current VRO,
 "keep" in front of everything when the current VRO has it -/
 def lineVro (vro : List VroEnt) (tags : List Str) : List VroEnt :=
